@@ -196,6 +196,16 @@ theorem ciede2000_eq_sharma_partial (p q : Lab3 ℝ) (hw : ¬ SharmaEq.WrapHigh 
     ciede2000 p q = ciede2000Sharma p q :=
   SharmaEq.ciede2000_eq_sharma_of_not_wrapHigh p q hw
 
+/-- **Zero-chroma inputs** (named in the property): when either colour is achromatic the code
+and the paper agree for every other input, with no side condition. -/
+theorem ciede2000_eq_sharma_achromatic (p q : Lab3 ℝ)
+    (h : (p.a = 0 ∧ p.b = 0) ∨ (q.a = 0 ∧ q.b = 0)) :
+    ciede2000 p q = ciede2000Sharma p q :=
+  SharmaEq.ciede2000_eq_sharma_of p q (by tauto)
+
+example : ciede2000 (⟨50, 0, 0⟩ : Lab3 ℝ) ⟨60, 20, -30⟩ = ciede2000Sharma ⟨50, 0, 0⟩ ⟨60, 20, -30⟩ :=
+  ciede2000_eq_sharma_achromatic _ _ (Or.inl ⟨rfl, rfl⟩)
+
 /-- The zero-chroma test on the unprimed chroma (code) and on the primed chroma (paper) agree:
 `a' = a·(1 + G)` with `1 + G ≥ 1`. -/
 theorem zero_chroma_tests_agree (a b k : ℝ) (hk : 0 ≤ k) :
